@@ -414,6 +414,16 @@ def gen_operator_spec(rng, version=None, rv=None, force_n=None, perm=False):
                 if nonzero and rng.random() < 0.6:
                     e1 = rng.choice(nonzero)        # an element whose Table B reference value is not 0
                 y203 = rng.randint(6, 16)
+                if gi == 0 and not ids and 31001 in b and rng.random() < 0.3:
+                    # the DEFINITION of the new reference value stands under a delayed replication (0..3 times):
+                    # executed zero times nothing is re-defined and the element keeps its Table B reference
+                    n = rv.choice([0, 0, 1, 2, 3]) if force_n is None else force_n
+                    ids += [203000 + y203, 101000, 31001, e1, 203255, e1, rng.choice(nums), 203000]
+                    factor_prefix = bytes([n])
+                    has_factor = True
+                    if rng.random() < 0.5:
+                        ids.append(rng.choice(els))
+                    continue
                 g += [203000 + y203, e1, e2, 203255, e1, rng.choice(nums), e2, 203000]
                 if gi == 0 and not ids and rng.random() < 0.6:
                     # the group opens the data section, unwrapped: its new reference values sit at bit 0 and
